@@ -34,8 +34,12 @@ assumptions = [
 ]
 
 TAGS = ["OFX", "STMTRS", "BANKTRANLIST", "STMTTRN", "A", "B1", "INTU.BID", "X.Y", "LEDGERBAL", "INVPOSLIST",
-        "SECLIST", "AGG", "SUB", "T_1"]
-LEAFS = ["CODE", "SEVERITY", "TRNAMT", "NAME", "MEMO", "DTPOSTED", "FITID", "L1", "V.W", "CURDEF"]
+        "SECLIST", "AGG", "SUB", "T_1",
+        # long names (real ones stop at about 23 characters; vendor extensions need not): 31, 32, 33 and 43 characters
+        "X234567890123456789012345678901", "X2345678901234567890123456789012", "X23456789012345678901234567890123",
+        "INTU.VERY.LONG.VENDOR.EXTENSION.AGGREGATE01"]
+LEAFS = ["CODE", "SEVERITY", "TRNAMT", "NAME", "MEMO", "DTPOSTED", "FITID", "L1", "V.W", "CURDEF",
+         "L2345678901234567890123456789012", "INTU.VERY.LONG.VENDOR.EXTENSION.ELEMENT.1"]
 DATA = ["0", "INFO", "-12.50", "ACME &amp; Co", "20200101120000.000[-5:EST]", "x y z", "1", "USD", "a&lt;b", "Z9",
         "<![CDATA[plain]]>", "<![CDATA[a <b> & c]]>", "caf\u00e9 &amp; th\u00e9" if False else "tab\there"]
 WSS = ["", "", "\n", "  ", "\r\n\t", " \n "]
